@@ -19,7 +19,7 @@ from ..ref import drex as ref
 from ..sarr import SArr, patched, sarr
 from ..sym import R, real
 from . import kernel
-from .common import all_eq, eq, np_installed, pydrex_modules, sample, only_path
+from .common import all_eq, eq, main_path, np_installed, pydrex_modules, sample, only_path
 
 TIMEOUT_MS = {"quick": 60000, "thorough": 300000}
 INF = float("inf")
@@ -169,9 +169,9 @@ def t_slip_rates(sess, fabric):
 
         with np_installed(core):
             paths, _ = sym.explore(fn)
-        if len(paths) != 1 or paths[0].exc is not None:
-            raise sym.HarnessError(f"slip rates: unexpected paths {paths}")
-        p = only_path(sess, paths)
+        p = main_path(sess, paths, "slip rates")
+        if p is None:
+            continue
         I, n, g, want = p.value
         for ob in p.obligations:
             sess.prove(f"slip rates[{fabric}] order {perm}: {ob.kind} cannot happen", ob.pc, ob.cond)
@@ -213,9 +213,9 @@ def t_energy(sess, phase, fabric):
 
     with np_installed(core):
         paths, _ = sym.explore(fn)
-    if len(paths) != 1 or paths[0].exc is not None:
-        raise sym.HarnessError(f"energy: unexpected paths {paths}")
-    p = only_path(sess, paths)
+    p = main_path(sess, paths, "strain energy")
+    if p is None:
+        return
     g, g0, E, want = p.value
     for ob in p.obligations:
         sess.prove(f"energy[{fabric}]: {ob.kind} cannot happen at `{(ob.site or ('', '?'))[1]}`", ob.pc, ob.cond)
@@ -448,10 +448,19 @@ def replay_reference(case):
 
     rng = np.random.default_rng(17)
     problems = []
-    for (ph, fb), rg in it.product(ref.CRSS, (4, 6)):
+    # volume vectors: interior of the simplex, a face (exact zeros), a vertex, one dominant grain
+    for (ph, fb), rg, vol in it.product(ref.CRSS, (4, 6), ("interior", "face", "vertex", "dominant")):
         n = 8
         A = Rotation.random(n, random_state=int(rng.integers(1 << 30))).as_matrix()
         f = rng.dirichlet(np.ones(n))
+        if vol == "face":
+            f[[1, 4, 5]] = 0.0
+            f /= f.sum()
+        elif vol == "vertex":
+            f = np.zeros(n)
+            f[2] = 1.0
+        elif vol == "dominant":
+            f = np.r_[0.93, np.full(n - 1, 0.01)]
         L = rng.normal(size=(3, 3))
         L /= np.abs(np.linalg.eigvalsh((L + L.T) / 2)).max()
         D = (L + L.T) / 2
@@ -466,7 +475,7 @@ def replay_reference(case):
         E = np.array(E)
         want_df = damp * phi * M * f * (f @ E - E)
         if not np.allclose(dA, np.array(want_dA), rtol=1e-9, atol=1e-10):
-            problems.append(f"{fb}/regime {rg}: rotation rates differ from the reference by {np.abs(dA - np.array(want_dA)).max():.2e}")
+            problems.append(f"{fb}/regime {rg}/{vol} volumes: rotation rates differ from the reference by {np.abs(dA - np.array(want_dA)).max():.2e}")
         if not np.allclose(df, want_df, rtol=1e-9, atol=1e-10):
-            problems.append(f"{fb}/regime {rg}: volume rates differ from the reference (max ratio {np.nanmax(np.abs(df / np.where(want_df == 0, np.nan, want_df))):.3f})")
+            problems.append(f"{fb}/regime {rg}/{vol} volumes: volume rates differ from the reference (max ratio {np.nanmax(np.abs(df / np.where(want_df == 0, np.nan, want_df))):.3f})")
     return {"reproduced": bool(problems), "detail": problems[:6] or "rates equal the reference model"}
